@@ -161,8 +161,9 @@ pub fn events_match(expected: &[AnimationState], observed: &[AnimationState]) ->
 const STREAM_DELTAS: u64 = 1;
 const STREAM_OPS: u64 = 2;
 const STREAM_RANDOM: u64 = 3;
+const STREAM_LAND: u64 = 4;
 
-fn run_history(sim: &mut Sim, pool: &[TlDesc], tl0: usize, two: bool, steps: &[(Op, usize)], acc: &mut Acc, stream: u64, index: u64, verbose: bool) {
+fn run_history(sim: &mut Sim, pool: &[TlDesc], tl0: usize, two: bool, steps: &[(Op, Duration)], acc: &mut Acc, stream: u64, index: u64, verbose: bool) {
     let init = Cv { x: 7.0, y: -3.0, n: 42 };
     let e = sim.app.world.spawn((init.clone(), Animator::<Cv>::with_timeline(pool[tl0].build_cv()))).id();
     let dv_desc = TlDesc { delay: 0.125, cycle: 0.25, repeat: Repeat::Times(1), reverse: false, variant: 0 };
@@ -174,7 +175,7 @@ fn run_history(sim: &mut Sim, pool: &[TlDesc], tl0: usize, two: bool, steps: &[(
     let case = |k: usize, what: &str| {
         case_json(stream, index, vec![
             ("initial_timeline", pool[tl0].json()), ("two_animated_components", J::B(two)),
-            ("steps", J::A(steps.iter().map(|(o, d)| J::s(format!("{} ; frame {:?}", o.name(), DELTAS[*d]))).collect())),
+            ("steps", J::A(steps.iter().map(|(o, d)| J::s(format!("{} ; frame {:?}", o.name(), d))).collect())),
             ("failing_frame", J::U(k as u64)), ("invariant", J::s(what)),
         ])
     };
@@ -231,7 +232,7 @@ fn run_history(sim: &mut Sim, pool: &[TlDesc], tl0: usize, two: bool, steps: &[(
                 break;
             }
         }
-        let (delta, evs) = sim.frame(DELTAS[*di]);
+        let (delta, evs) = sim.frame(*di);
         let post = snap::<Cv>(sim, e);
         acc.eval();
         let mine: Vec<AnimationState> = evs.iter().filter(|(en, _)| *en == e).map(|(_, s)| *s).collect();
@@ -276,8 +277,9 @@ fn run_history(sim: &mut Sim, pool: &[TlDesc], tl0: usize, two: bool, steps: &[(
         }
         // coverage signature: what kind of frame was this?
         let d = mon.desc.as_ref().unwrap();
-        let dclass = ["zero", "tiny", "medium", "hitch"][*di];
-        acc.sig(format!("{}|{}->{}|dt={dclass}|valid={}|op={}", d.kind(), state_name(pre.state), state_name(post.state), mon.run_valid, match op { Op::Nop => "-", Op::Disable => "dis", Op::Enable => "en", Op::Reset => "reset", Op::Hot(_) => "hot", Op::SwapReset(_) => "swap" }));
+        let dclass = if di.is_zero() { "zero" } else if *di <= Duration::from_millis(2) { "tiny" } else if *di < Duration::from_secs(8) { "medium" } else { "hitch" };
+        let lands = if post.pos.as_secs_f64() == d.total() { "|lands-on-total" } else if post.pos.as_secs_f32() == d.delay && d.delay > 0.0 { "|lands-on-delay" } else { "" };
+        acc.sig(format!("{}|{}->{}|dt={dclass}{lands}|valid={}|op={}", d.kind(), state_name(pre.state), state_name(post.state), mon.run_valid, match op { Op::Nop => "-", Op::Disable => "dis", Op::Enable => "en", Op::Reset => "reset", Op::Hot(_) => "hot", Op::SwapReset(_) => "swap" }));
         last_post = Some(post.state);
     }
     if ok && index % 997 == 0 {
@@ -295,7 +297,9 @@ pub fn run(run: &mut Run) {
         repeat {{None, Times(2), Infinite}} x reverse, plus a very short and a long-delayed timeline (38 timelines); ALL frame-delta \
         histories of length {depth_d} over {{0, 1/512 s, 1/8 s, 64 s}} for every pool timeline; ALL (operation, delta) histories of \
         length {depth_o} over operations {{none, disable, enable, reset, hot set_timeline, set_timeline+reset}} on 3 timelines; random \
-        histories of 50-300 frames on entities with one and two animated component types under 4 system registration orders; the \
+        histories of 50-300 frames on entities with one and two animated component types under 4 system registration orders; \
+        boundary-landing schedules (all triples of frame lengths drawn from {{0, delay, cycle, cycle/2, total, total-delay, total+-1/512 s}} of \
+        the timeline and of a hot-swap target, 228 configurations); the \
         trace invariants 1-8 of DESIGN §4 C18 are checked after every frame; non-trivial = a frame of an enabled animator with a \
         timeline; distinct = (timeline kind, state transition of the frame, delta class, run valid?, operation)"
     );
@@ -323,11 +327,11 @@ pub fn run(run: &mut Run) {
         for i in my_cases(rc, STREAM_DELTAS, n_d, w, nw) {
             let tl0 = (i % pool.len() as u64) as usize;
             let mut x = i / pool.len() as u64;
-            let steps: Vec<(Op, usize)> = (0..depth_d)
+            let steps: Vec<(Op, Duration)> = (0..depth_d)
                 .map(|_| {
                     let d = (x % 4) as usize;
                     x /= 4;
-                    (Op::Nop, d)
+                    (Op::Nop, DELTAS[d])
                 })
                 .collect();
             guarded(acc, "c18", STREAM_DELTAS, i, |acc| run_history(&mut sims[(i % 4) as usize], &pool, tl0, false, &steps, acc, STREAM_DELTAS, i, verbose));
@@ -335,11 +339,11 @@ pub fn run(run: &mut Run) {
         for i in my_cases(rc, STREAM_OPS, n_o, w, nw) {
             let tl0 = op_tls[(i / per) as usize];
             let mut x = i % per;
-            let steps: Vec<(Op, usize)> = (0..depth_o)
+            let steps: Vec<(Op, Duration)> = (0..depth_o)
                 .map(|_| {
                     let k = (x % 24) as usize;
                     x /= 24;
-                    (ops_alpha[k / 4], k % 4)
+                    (ops_alpha[k / 4], DELTAS[k % 4])
                 })
                 .collect();
             guarded(acc, "c18", STREAM_OPS, i, |acc| run_history(&mut sims[0], &pool, tl0, false, &steps, acc, STREAM_OPS, i, verbose));
@@ -348,7 +352,7 @@ pub fn run(run: &mut Run) {
             let mut r = Rng::derive(seed, STREAM_RANDOM, i);
             let len = 50 + r.usize(251);
             let tl0 = r.usize(pool.len());
-            let steps: Vec<(Op, usize)> = (0..len)
+            let steps: Vec<(Op, Duration)> = (0..len)
                 .map(|_| {
                     let op = match r.below(12) {
                         0 => Op::Disable,
@@ -358,11 +362,13 @@ pub fn run(run: &mut Run) {
                         5 => Op::SwapReset(r.usize(pool.len())),
                         _ => Op::Nop,
                     };
-                    let d = match r.below(10) {
-                        0 => 0,
-                        1 | 2 => 1,
-                        9 => 3,
-                        _ => 2,
+                    let d = match r.below(12) {
+                        0 => DELTAS[0],
+                        1 | 2 => DELTAS[1],
+                        9 => DELTAS[3],
+                        10 => Duration::from_millis(250 * (1 + r.below(8))),
+                        11 => Duration::from_nanos(1_953_125 * (1 + r.below(600))),
+                        _ => DELTAS[2],
                     };
                     (op, d)
                 })
@@ -375,6 +381,65 @@ pub fn run(run: &mut Run) {
                 guarded(acc, "c18", STREAM_RANDOM, i, |acc| run_history(sim, &pool, tl0, two, &steps, acc, STREAM_RANDOM, i, verbose));
             } else {
                 guarded(acc, "c18", STREAM_RANDOM, i, |acc| run_history(&mut sims[o], &pool, tl0, two, &steps, acc, STREAM_RANDOM, i, verbose));
+            }
+        }
+    });
+    // ---- boundary-landing schedules: frames whose length is exactly the delay, the total, a cycle, half
+    // a cycle, total +- 1/512 s ... of the initial timeline and of a hot-swap target, so that the position
+    // lands exactly on every comparison boundary of the system (>= vs >), also right after a hot swap.
+    let lands: Vec<(usize, Option<usize>)> = {
+        let mut v = Vec::new();
+        for t in 0..pool.len() {
+            v.push((t, None));
+            for k in 0..5 {
+                v.push((t, Some((t * 7 + k * 11 + 3) % pool.len())));
+            }
+        }
+        v
+    };
+    let landing_set = |d: &TlDesc| -> Vec<f64> {
+        let mut l = vec![0.0, d.delay as f64, d.cycle as f64, d.cycle as f64 / 2.0, 1.0 / 512.0, d.delay as f64 + d.cycle as f64];
+        if d.total().is_finite() {
+            l.extend_from_slice(&[d.total(), d.total() - d.delay as f64, d.total() + 1.0 / 512.0, (d.total() - 1.0 / 512.0).max(0.0)]);
+        }
+        l
+    };
+    let n_l = lands.len() as u64;
+    run.extra.push(("boundary_landing_configurations".into(), J::U(n_l)));
+    run.parallel(|w, nw, acc| {
+        let mut sim = Sim::new((w % 4) as u8);
+        // replay: the recorded index encodes (configuration, delta triple)
+        let rc_land = rc.and_then(|(s, idx)| if s == STREAM_LAND { Some((STREAM_LAND, idx / 1_000_000)) } else { Some((s, idx)) });
+        let only_combo = rc.and_then(|(s, idx)| if s == STREAM_LAND { Some(idx % 1_000_000) } else { None });
+        for i in my_cases(rc_land, STREAM_LAND, n_l, w, nw) {
+            let (tl0, swap) = lands[i as usize];
+            let mut set = landing_set(&pool[tl0]);
+            if let Some(j) = swap {
+                set.extend(landing_set(&pool[j]));
+            }
+            set.sort_by(|a, b| a.total_cmp(b));
+            set.dedup();
+            let n = set.len();
+            // all sequences of three landing deltas; the hot swap (if any) happens before the third frame
+            for a in 0..n {
+                for b in 0..n {
+                    for c in 0..n {
+                        if let Some(oc) = only_combo {
+                            if oc != (a * n * n + b * n + c) as u64 {
+                                continue;
+                            }
+                        }
+                        let dur = |x: f64| Duration::from_secs_f64(x);
+                        let steps = vec![
+                            (Op::Nop, dur(set[a])),
+                            (Op::Nop, dur(set[b])),
+                            (swap.map(Op::Hot).unwrap_or(Op::Nop), dur(set[c])),
+                            (Op::Nop, Duration::ZERO),
+                            (Op::Nop, dur(1.0 / 512.0)),
+                        ];
+                        guarded(acc, "c18", STREAM_LAND, i, |acc| run_history(&mut sim, &pool, tl0, false, &steps, acc, STREAM_LAND, i * 1_000_000 + (a * n * n + b * n + c) as u64, verbose));
+                    }
+                }
             }
         }
     });
